@@ -256,7 +256,7 @@ def make_state(datasets, st):
 
 def apply_style(style, spec):
     for k, v in (spec or {}).items():
-        setattr(style, k, v)
+        setattr(style, k, tuple(v) if isinstance(v, list) else v)
 
 
 def write_file(ds, path_base):
@@ -823,6 +823,38 @@ def state_specs_for(cls_name, qualname):
     return [{'cls': c, 'qualname': qualname, 'd': 0, 'att': 'x'}]
 
 
+# boundary / falsy values for every style attribute (VisualAttributes.DEFAULT_ATTS); each is used for a dataset style and a subset-group style
+STYLE_VALUES = {
+    'alpha': [0, 0.0, 1, 1.0, 0.5],
+    'linewidth': [0, 0.0, 1, 2.5],
+    'markersize': [0, 0.0, 3, 7.5],
+    'marker': ['o', '', 'None', '+', 's'],
+    'linestyle': ['solid', 'none', 'dashed', 'dash-dot', 'dotted'],
+    'color': ['#FF0000', 'red', '0.0', '0', '0.5', [0.0, 0.0, 0.0], [0.1, 0.2, 0.3], '#000000'],
+    'preferred_cmap': [None, 'viridis'],
+}
+
+
+def style_cases():
+    """one style spec per (attribute, boundary value), the other attributes at their defaults; plus all-falsy and mixed ones"""
+    out = []
+    for a, vals in STYLE_VALUES.items():
+        for v in vals:
+            out.append(('%s=%r' % (a, v), {a: v}))
+    out.append(('all-zero', {'alpha': 0, 'linewidth': 0, 'markersize': 0, 'marker': '', 'linestyle': 'none', 'color': '0'}))
+    out.append(('all-zero-float', {'alpha': 0.0, 'linewidth': 0.0, 'markersize': 0.0, 'marker': 'None', 'linestyle': 'none', 'color': [0.0, 0.0, 0.0]}))
+    out.append(('all-one', {'alpha': 1, 'linewidth': 1, 'markersize': 1, 'marker': 'o', 'linestyle': 'solid', 'color': '1.0'}))
+    return out
+
+
+def random_style(rng):
+    st = {}
+    for a, vals in STYLE_VALUES.items():
+        if a != 'preferred_cmap' and rng.random() < 0.6:
+            st[a] = rng.choice(vals)
+    return st
+
+
 def base_spec(include_data=True, files=False):
     t = table_ds('t', n=8, seed=11, file='csv' if files else None)
     im = image_ds('im', (3, 4), seed=21, file='fits' if files else None)
@@ -933,6 +965,14 @@ def catalogue(tables):
                   'links': [], 'subsets': [{'label': 's', 'state': {'cls': 'RangeSubsetState', 'd': 0, 'att': 'x', 'lo': 2, 'hi': 6}},
                                            {'label': 'w', 'state': {'cls': 'RangeSubsetState', 'd': 0, 'att': 'world0' if coords else 'pix0', 'lo': 0, 'hi': 12}}]}
             cases.append(('coords:%s:%dd' % (coords, len(shape)), sp))
+    # styles: every attribute at its boundary / falsy values, on a dataset and on a subset group at once, with and without data
+    for k, (nm, st) in enumerate(style_cases()):
+        inc = k % 3 != 0
+        t = table_ds('t', 6, 15, style=dict(st), file=None if inc else 'csv')
+        sp = {'include_data': inc, 'datasets': [t, image_ds('im', (2, 3), 25, style=dict(st))], 'links': [], 'subsets': [
+            {'label': 's', 'state': {'cls': 'RangeSubsetState', 'd': 0, 'att': 'x', 'lo': 2, 'hi': 6}, 'style': dict(st)},
+            {'label': 'plain', 'state': {'cls': 'RangeSubsetState', 'd': 1, 'att': 'x', 'lo': 1, 'hi': 5}}]}
+        cases.append(('style:' + nm, sp))
     for f in ('csv', 'npy', 'fits'):
         for inc in (False, True):
             ds = table_ds('tf', 6, 61, file=f) if f != 'fits' else image_ds('tf', (3, 4), 61, file=f)
@@ -988,8 +1028,8 @@ def random_spec(rng, tables):
                 {'name': 'q', 'kind': 'arith', 'expr': ['sub', 'x', ['add', 'y', 1]]},
                 {'name': 'q', 'kind': 'func', 'from': ['x'], 'fn': 'plus_one'},
                 {'name': 'q', 'kind': 'parsed', 'cmd': '{a} - {b}', 'refs': {'a': 'x', 'b': 'y'}}]))
-        if rng.random() < 0.5:
-            ds['style'] = {'color': rng.choice(['#00ff00', '#0000ff', 'red']), 'alpha': rng.choice([0.3, 0.8]), 'markersize': rng.choice([3, 9])}
+        if rng.random() < 0.6:
+            ds['style'] = random_style(rng)
         if rng.random() < 0.5:
             ds['meta'] = {'k%d' % j: rng.choice([1, 'two', [3, 4], 2.5]) for j in range(rng.randrange(1, 3))}
         dsets.append(ds)
@@ -1072,8 +1112,8 @@ def random_spec(rng, tables):
     subsets = []
     for k in range(rng.randrange(1, 5)):
         sb = {'label': rng.choice(['s%d' % k, 'sel', 'd0']), 'state': state(2, rng.randrange(nds))}
-        if rng.random() < 0.5:
-            sb['style'] = {'color': rng.choice(['#abcdef', '#101010']), 'alpha': 0.4}
+        if rng.random() < 0.6:
+            sb['style'] = random_style(rng)
         subsets.append(sb)
     return {'include_data': inc, 'datasets': dsets, 'links': links, 'subsets': subsets}
 
